@@ -45,6 +45,9 @@ impl Tier {
 /// Case ids at or above this value are executed by the dev-profile binary
 /// (overflow checks + debug assertions).
 pub const DEV_BASE: u64 = 1 << 40;
+/// Case ids at or above this value are executed by the real-size binary (harness built
+/// WITHOUT the `small` feature: 128 MiB WAL files).
+pub const REAL_BASE: u64 = 1 << 41;
 
 pub struct Ctx {
     pub prop: String,
@@ -145,6 +148,11 @@ pub trait Monitor {
     fn num_cases(&self, tier: Tier) -> u64;
     /// Number of dev-profile cases (case ids DEV_BASE..DEV_BASE+n).
     fn num_dev_cases(&self, _tier: Tier) -> u64 {
+        0
+    }
+    /// Number of real-size cases (case ids REAL_BASE..REAL_BASE+n), run by the binary built
+    /// without the small-file hook.
+    fn num_realsize_cases(&self, _tier: Tier) -> u64 {
         0
     }
     fn run_case(&self, ctx: &Ctx, case: u64, acc: &mut Acc);
@@ -369,6 +377,19 @@ pub fn run_parent(mon: &dyn Monitor, tier: Tier, seed: u64) -> i32 {
         }
     }
 
+    let nreal = mon.num_realsize_cases(tier);
+    if nreal > 0 {
+        match std::env::var("VERIF_REALSIZE_BIN").ok().map(PathBuf::from).filter(|p| p.exists()) {
+            Some(bin) => {
+                // few workers: every case keeps several 128 MiB files on tmpfs
+                let nr = 4u64.min(nreal);
+                for i in 0..nr {
+                    spawn(&bin, REAL_BASE + i, nr, REAL_BASE + nreal, format!("real-{}", i), &mut jobs);
+                }
+            }
+            None => hard_inconclusive.push("real-size binary not available (VERIF_REALSIZE_BIN)".into()),
+        }
+    }
     // wait with a generous wall-clock watchdog (firing => inconclusive, never violation)
     let deadline = Instant::now() + mon.watchdog(tier);
     let mut merged = Acc::new();
